@@ -99,7 +99,25 @@ Check ==
        \/ ~OkE(e) /\ PrintT(<<"MISMATCH", ToJson([case |-> cid, line |-> l, event |-> e, judge |-> Explain(e)])>>)
     /\ UNCHANGED <<apex, zone, cid>>
 
-Next == l <= Len(Rec) /\ l' = l + 1 /\ (Reset \/ Check)
+(* Audit of the published chain (event "chain": every NSEC record of the signed *)
+(* zone): it must be the chain the specification derives from the zone         *)
+(* (NsecOps.Chain).  The judgements above take published records as genuine    *)
+(* facts about the zone.                                                       *)
+ChainPub(ev) == { [owner |-> ev.published[i].owner, next |-> ev.published[i].next,
+                   types |-> SetOf(ev.published[i].types)] : i \in DOMAIN ev.published }
+ChainCheck ==
+    /\ e.ev = "chain" /\ HasZone
+    /\ LET pub == ChainPub(e)
+           exp == Chain(zone, apex)
+           missing == exp \ pub
+           extra   == pub \ exp IN
+       \/ missing = {} /\ extra = {}
+       \/ ~(missing = {} /\ extra = {}) /\
+          PrintT(<<"MISMATCH", ToJson([case |-> cid, line |-> l, event |-> [ev |-> "chain", origin |-> "audit"],
+                                       judge |-> [missing |-> missing, extra |-> extra]])>>)
+    /\ UNCHANGED <<apex, zone, cid>>
+
+Next == l <= Len(Rec) /\ l' = l + 1 /\ (Reset \/ Check \/ ChainCheck)
 
 TraceSpec == Init /\ [][Next]_tvars
 
